@@ -32,7 +32,7 @@ def norm(fn):
 def gen(ctx, num, depth):
     d = os.path.dirname(ctx.path("snapbeh", "x"))
     vlib.tlc(ctx, SPEC, "Snapshot", "Sim.cfg", mode="sim", sim_num=num, sim_depth=depth, timeout=600, want_prints=False,
-             consts={"FixGhost": "FALSE"}, simfile=os.path.join(d, "b"))
+             consts={"FixGhost": "FALSE" if os.environ.get("VERIF_SNAP_ASIS") else "TRUE"}, simfile=os.path.join(d, "b"))
     behs = []
     for f in sorted(glob.glob(os.path.join(d, "b_*"))):
         sts = tlaparse.parse_behaviour_file(f)
@@ -49,7 +49,7 @@ def check_c02(ctx):
     ctx.log("TLC Snapshot/MC (reference): %d generated / %d distinct states, %.0fs" % (r["generated"], r["distinct"], r["wall_s"]))
     vlib.tlc(ctx, SPEC, "Snapshot", "MC_asis.cfg", timeout=300, expect_violation="QuietConverges", workers=4)
     r2 = vlib.tlc(ctx, SPEC, "Snapshot", "MC_asis_only.cfg", timeout=900, expect_violation=False, consts={"MaxOps": ctx.pick("3", "4")}, workers=8)
-    ctx.log("TLC: the code-as-is model deviates from the cluster only by the ghost of a preloaded-then-deleted object (%d states)" % r2["distinct"])
+    ctx.log("TLC: the pinned-commit model deviates from the cluster only by the ghost of a preloaded-then-deleted object (%d states)" % r2["distinct"])
     binary = vlib.go_build(ctx, "snap")
     behs = gen(ctx, ctx.pick(250, 3000), 40)
     cases = [{"filter": i % 3 != 0, "const": i % 3 == 2, "steps": b} for i, b in enumerate(behs)]
